@@ -8,7 +8,7 @@ PRIORITIES = [None, None, None, 'high', 'low', 'medium', 'highest', 'lowest',
               'syntax', 'runtime', 'student', 'positive', 'instructions', 'mistakes', 'algorithmic',
               'specification', 'uncategorized',
               'parser', 'verifier', 'analyzer', 'instructor', 'HIGH', 'Low', 'Lowest']
-KINDS = [None, None, 'Mistake', 'Compliment', 'Instructional', 'Result', 'Hint']
+KINDS = [None, None, 'Mistake', 'Compliment', 'Instructional', 'Result', 'Hint', 'Encouragement', 'Misconception', 'Constraint', 'Metacognitive', 'Reinforcement', 'Performance', 'Meta', 'Encouragement']
 LABELS = ['alpha', 'Beta', 'gamma_3', 'delta']
 FIELDSETS = [{}, {'a': 1}, {'a': 1, 'b': 'x'}, {'a': 2}, {'b': 'x'}, {'name': 'total', 'line': 3},
              {'a': 2, 'b': 'x'}, {'a': 1, 'b': 'y'}, {'b': 'x', 'a': 1}, {'name': 'count', 'line': 3}, {'name': 'total', 'line': 4},
@@ -116,7 +116,7 @@ def gen_suppressions(rng, feedbacks):
         elif form == 'category':
             s['category'] = rng.choice(cats_present + CATEGORIES)
         elif form == 'alias':
-            s['category'] = rng.choice(['parser', 'verifier', 'analyzer', 'Instructor', 'RUNTIME'])
+            s['category'] = rng.choice(['parser', 'verifier', 'analyzer', 'Instructor', 'RUNTIME', 'Analyzer', 'Parser', 'VERIFIER', 'Sandbox', 'sandbox', 'Tifa', 'cait', 'Source'])
         elif form == 'correct':
             s['category'] = rng.choice(['correct', 'success'])
         elif form == 'category+label':
@@ -154,6 +154,20 @@ def build(spec, order=None, first=None):
         report.clear()
     else:
         report = Report()
+    if spec.get('pre_use'):
+        # the report object has a past: an earlier grading left feedback and suppressions of every form in it, was resolved,
+        # and the report was cleared again - none of that may show in what follows
+        from pedal.resolvers import simple as _simple
+        commands.gently('left over from the grading before', label='stale_label', report=report)
+        commands.explain('another one', label='stale_two', priority='high', report=report)
+        for s in spec['pre_use']:
+            kw = {k: (dict(v) if isinstance(v, dict) else v) for k, v in s.items()}
+            commands.suppress(report=report, **kw)
+        try:
+            _simple.resolve(report)
+        except Exception:
+            pass
+        report.clear()
     classes = {'Feedback': Feedback, 'explain': commands.explain, 'gently': commands.gently,
                'compliment': commands.compliment, 'give_partial': commands.give_partial,
                'set_correct': commands.set_correct, 'guidance': commands.guidance,
